@@ -161,8 +161,9 @@ inductive Reachable : LabelState → Prop where
 
 /-- what every reachable state satisfies -/
 structure LabelInv (st : LabelState) : Prop where
-  shape : ∀ e ∈ st.map, e.2.hint = (e.1.func, e.1.mono, if e.1.mono.isSome then e.1.captures else []) ∧
-      (e.1.mono = none → e.2.id = none) ∧ (e.1.mono ≠ none → ∃ i, e.2.id = some i ∧ i < st.counter)
+  shape : ∀ e ∈ st.map,
+      e.2.hint = (e.1.func, (if e.1.plain then none else e.1.mono), (if e.1.plain then [] else e.1.captures.map (·.1))) ∧
+      (e.1.plain = true → e.2.id = none) ∧ (e.1.plain = false → ∃ i, e.2.id = some i ∧ i < st.counter)
 
 theorem labelInv_reachable (st : LabelState) (h : Reachable st) : LabelInv st := by
   induction h with
@@ -172,45 +173,59 @@ theorem labelInv_reachable (st : LabelState) (h : Reachable st) : LabelInv st :=
     cases hf : st.find d with
     | some l => simpa using ih
     | none =>
-      cases hm : d.mono with
-      | none =>
-        simp only
+      cases hp : d.plain with
+      | true =>
+        simp only [if_true]
         constructor
         intro e he
         rcases List.mem_cons.1 he with rfl | he
-        · simp [hm]
+        · simp [hp]
         · exact ih.shape e he
-      | some m =>
-        simp only
+      | false =>
+        simp only [Bool.false_eq_true, if_false]
         constructor
         intro e he
         rcases List.mem_cons.1 he with rfl | he
-        · simp [hm]
+        · simp [hp]
         · obtain ⟨h1, h2, h3⟩ := ih.shape e he
           refine ⟨h1, h2, fun hne => ?_⟩
           obtain ⟨i, hi1, hi2⟩ := h3 hne
           exact ⟨i, hi1, by show i < st.counter + 1; omega⟩
 
-/-- Two instantiations recorded in the function map carry the same label only if function,
-    monotype and (for an overloaded function) concrete capture types coincide; conversely one
-    descriptor always gets the one label recorded for it. -/
+/-- Two instantiations recorded in the function map carry the same label only if the function
+    coincides and — unless both keep the plain name — also the monotype and the concrete types of
+    ALL captures; a plain and a non-plain descriptor never share a label. -/
 theorem C22_label_injective (st : LabelState) (h : Reachable st) (e1 e2 : Desc × Label)
     (h1 : e1 ∈ st.map) (h2 : e2 ∈ st.map) (hl : e1.2 = e2.2) :
-    e1.1.func = e2.1.func ∧ e1.1.mono = e2.1.mono ∧ (e1.1.mono ≠ none → e1.1.captures = e2.1.captures) := by
+    e1.1.func = e2.1.func ∧ e1.1.plain = e2.1.plain ∧
+      (e1.1.plain = false → e1.1.mono = e2.1.mono ∧ e1.1.captures.map (·.1) = e2.1.captures.map (·.1)) := by
   have inv := labelInv_reachable st h
-  obtain ⟨a1, _, _⟩ := inv.shape e1 h1
-  obtain ⟨a2, _, _⟩ := inv.shape e2 h2
+  obtain ⟨a1, b1, c1⟩ := inv.shape e1 h1
+  obtain ⟨a2, b2, c2⟩ := inv.shape e2 h2
+  have hplain : e1.1.plain = e2.1.plain := by
+    cases p1 : e1.1.plain <;> cases p2 : e2.1.plain <;> try rfl
+    · obtain ⟨i, hi, _⟩ := c1 p1; have := b2 p2; rw [hl] at hi; rw [this] at hi; cases hi
+    · obtain ⟨i, hi, _⟩ := c2 p2; have := b1 p1; rw [← hl] at hi; rw [this] at hi; cases hi
   rw [hl, a2] at a1
   simp only [Prod.mk.injEq] at a1
   obtain ⟨hf, hm, hc⟩ := a1
-  refine ⟨hf.symm, hm.symm, fun hne => ?_⟩
-  have s1 : e1.1.mono.isSome = true := by
-    cases hmm : e1.1.mono with
-    | none => exact absurd hmm hne
-    | some _ => rfl
-  have s2 : e2.1.mono.isSome = true := by rw [hm]; exact s1
-  simp only [s1, s2, if_true] at hc
-  exact hc.symm
+  refine ⟨hf.symm, hplain, fun hne => ?_⟩
+  have hne2 : e2.1.plain = false := by rw [← hplain]; exact hne
+  simp only [hne, hne2, Bool.false_eq_true, if_false] at hm hc
+  exact ⟨hm.symm, hc.symm⟩
+
+/-- In particular: a lambda or task that captures at least one variable of generic type gets a
+    different label for every instantiation in which the concrete type of ANY capture (or its own
+    monotype) differs — also when its other captures are of concrete type and its own type
+    mentions no type parameter. -/
+theorem C22_label_per_instantiation (st : LabelState) (h : Reachable st) (e1 e2 : Desc × Label)
+    (h1 : e1 ∈ st.map) (h2 : e2 ∈ st.map)
+    (hov : e1.1.capturesOverloaded = true)
+    (hdiff : e1.1.captures.map (·.1) ≠ e2.1.captures.map (·.1)) : e1.2 ≠ e2.2 := by
+  intro hl
+  obtain ⟨_, _, hc⟩ := C22_label_injective st h e1 e2 h1 h2 hl
+  have hp : e1.1.plain = false := by simp [Desc.plain, hov]
+  exact hdiff (hc hp).2
 
 theorem C22_label_stable (st : LabelState) (d : Desc) :
     (getLabel (getLabel st d).2 d).1 = (getLabel st d).1 := by
@@ -218,9 +233,9 @@ theorem C22_label_stable (st : LabelState) (d : Desc) :
   cases hf : st.find d with
   | some l => simp [hf]
   | none =>
-    cases hm : d.mono with
-    | none => simp [LabelState.find, hm]
-    | some m => simp [LabelState.find, hm]
+    cases hp : d.plain with
+    | true => simp [LabelState.find]
+    | false => simp [LabelState.find]
 
 /-! ### non-vacuity -/
 private def sigShow : Ty := .func [.poly 1, .nominal 7 [.poly 2]] .string     -- fn g(x: T, ys: array<U>) -> string
@@ -232,5 +247,11 @@ example : subst (update [] sigShow (applySubst σ1 sigShow)) sigShow =
 example : ([Ty.poly 0, .int].any isSelf = true ∨ isSelf Ty.bool = true) := Or.inl rfl
 example : selectImpl [.int, .tuple [.poly 1, .poly 2], .nominal 9 []] (Ty.tuple [.int, .float]).key = some 1 := by decide
 example : Reachable (getLabel { map := [], counter := 1 } ⟨3, some "int", []⟩).2 := Reachable.step _ Reachable.init
+/-- `fn labelled(v: T, prefix: string) { let render = () -> prefix .. str(v) … }` at Celsius and at
+    Meters: the lambda (own type `() -> string`, captures `v: T` and `prefix: string`) gets two labels -/
+private def dC : Desc := ⟨7, none, [("Celsius", true), ("string", false)]⟩
+private def dM : Desc := ⟨7, none, [("Meters", true), ("string", false)]⟩
+example : (getLabel (getLabel { map := [], counter := 1 } dC).2 dM).1 ≠ (getLabel { map := [], counter := 1 } dC).1 := by decide
+example : dC.capturesOverloaded = true := rfl
 
 end Abra.Mono
